@@ -323,7 +323,8 @@ int vh::run_rd(int, char**) {
             for (const std::string& c : vh::split(a[3], ',')) {
                 std::size_t n = std::min<std::size_t>(data.size(), std::strtoull(c.c_str(), nullptr, 10));
                 if (!first) out += " @@ ";
-                out += read_file(a[1], data.substr(0, n));
+                // one digest per cut (the dumps of thousands of cuts of a large file would be gigabytes); `rd <kind> <hex> <n>` gives the full answer
+                out += vh::digest(read_file(a[1], data.substr(0, n)));
                 first = false;
             }
             std::cout << out << std::endl;
